@@ -8,7 +8,9 @@ import (
 
 // Command is what the driver asks a simulation process to do.
 type Command struct {
-	Mode   string       `json:"mode"` // worker | replay | minimise
+	Mode   string       `json:"mode"` // worker | replay | minimise | probe
+	// Isolate makes every execution of this command happen in a process of its own (exec.go).
+	Isolate bool `json:"isolate,omitempty"`
 	Worker WorkerConfig `json:"worker"`
 	In     string       `json:"in,omitempty"`
 	Out    string       `json:"out"`
@@ -44,6 +46,9 @@ func Main(h Hooks) int {
 		fmt.Fprintln(os.Stderr, "c16sim: ZZSIM_CMD not set")
 		return 2
 	}
+	if cfgPath == ExecOneEnv {
+		return ExecOne(h)
+	}
 	b, err := os.ReadFile(cfgPath)
 	if err != nil {
 		fmt.Fprintln(os.Stderr, "c16sim:", err)
@@ -54,7 +59,15 @@ func Main(h Hooks) int {
 		fmt.Fprintln(os.Stderr, "c16sim:", err)
 		return 2
 	}
+	IsolateExec = cmd.Isolate
 	switch cmd.Mode {
+	case "probe":
+		res := Probe(h, cmd.Worker.Seed, cmd.Worker.MultiOK && h.Multi != nil)
+		if err := WriteJSON(cmd.Out, res); err != nil {
+			fmt.Fprintln(os.Stderr, "c16sim:", err)
+			return 2
+		}
+		return 0
 	case "worker":
 		cmd.Worker.MultiOK = cmd.Worker.MultiOK && h.Multi != nil
 		res := RunWorker(h, cmd.Worker)
